@@ -9,7 +9,7 @@ This module contains gateware designed to assist with endpoint/transfer state ma
 Its components facilitate data transfer longer than a single packet.
 """
 
-from amaranth            import Signal, Elaboratable, Module, Array
+from amaranth            import Signal, Elaboratable, Module, Array, Mux
 from amaranth.lib.memory import Memory
 
 from .packet             import HandshakeExchangeInterface, TokenDetectorInterface
@@ -231,6 +231,10 @@ class USBInTransferManager(Elaboratable):
         # Pulses high an interpacket delay after receiving an IN token.
         in_token_received = self.active & self.tokenizer.is_in & self.tokenizer.ready_for_response
 
+        # The PID for the next packet we queue: normally the toggled PID; but if a PID-sequence reset arrives
+        # in the very cycle we queue a packet, the reset must win, and the queued packet starts the new sequence.
+        next_data_pid = Mux(self.reset_sequence, self.start_with_data1, ~self.data_pid[0])
+
         with m.FSM(domain='usb'):
 
             # WAIT_FOR_DATA -- We don't yet have a full packet to transmit, so  we'll capture data
@@ -249,7 +253,7 @@ class USBInTransferManager(Elaboratable):
                         # We're now ready to take the data we've captured and _transmit_ it.
                         # We'll swap our read and write buffers, and toggle our data PID.
                         self.buffer_toggle  .eq(~self.buffer_toggle),
-                        self.data_pid[0]    .eq(~self.data_pid[0]),
+                        self.data_pid[0]    .eq(next_data_pid),
 
                         # Mark our current stream as no longer having ended.
                         read_stream_ended  .eq(0)
@@ -347,7 +351,7 @@ class USBInTransferManager(Elaboratable):
                     # If we're following up with a ZLP, move back to our "wait to send" state.
                     # Since we've now cleared our fill count; this next go-around will emit a ZLP.
                     with m.If(follow_up_with_zlp):
-                        m.d.usb += self.data_pid[0].eq(~self.data_pid[0]),
+                        m.d.usb += self.data_pid[0].eq(next_data_pid),
                         m.next = "WAIT_TO_SEND"
 
                     # Otherwise, there's a possibility we already have a packet-worth of data waiting
@@ -358,7 +362,7 @@ class USBInTransferManager(Elaboratable):
                         m.next = "WAIT_TO_SEND"
                         m.d.usb += [
                             self.buffer_toggle .eq(~self.buffer_toggle),
-                            self.data_pid[0]   .eq(~self.data_pid[0]),
+                            self.data_pid[0]   .eq(next_data_pid),
                             read_stream_ended  .eq(0)
                         ]
 
